@@ -1177,6 +1177,10 @@ class Porter(object):
                 steward.requestant.parse()
 
                 if steward.requestant.ended:
+                    if steward.requestant.errored:  # malformed request so close its connection
+                        sys.stderr.write(steward.requestant.error)
+                        self.closeConnection(ca)
+                        continue
                     steward.requestant.dictify()
                     console.concise("Parsed Request:\n{0} {1} {2}\n"
                                     "{3}\n{4}\n".format(steward.requestant.method,
